@@ -149,6 +149,7 @@ def retry_unit(ctx):
     except BaseException as e:
         if ctx.dead is not None:
             raise
+        ctx.classify(e)
         ctx.check("wrapper/raises:is-last-attempt's-exception", bool(g.last is not None and g.last[0] == "raise" and g.last[1] is e))
         if isinstance(e, ET):
             ctx.check("wrapper/raises:exc_type=>attempts-exhausted", g.calls == n)
